@@ -30,76 +30,115 @@ theorem gro_coord_specs :
               .fld .z ⟨' ', .dflt, 8, 3, .f, true⟩] ∧ groDotFrom = 25 := by
   decide
 
-/-- **detection of the coordinate width.**  On every atom line `write_gro` produces — whatever the
-coordinates, overflowing or not — `read_gro` detects 8-column coordinates and no velocities,
-provided the residue and atom name contain no '.'. -/
-theorem gro_detect (serial : Nat) (a : Atom)
-    (hrn : (a.resname.getD []).all (· ≠ '.') = true) (han : (a.atomname.getD []).all (· ≠ '.') = true) :
-    (groDetect gro (groLine gro serial a)).slices = groSlices 8 ∧
-    (groDetect gro (groLine gro serial a)).hasVel = false := by
-  let env := atomEnv serial a
+def dotCount (l : List Char) : Nat := (l.filter (· = '.')).length
+
+/-- the points in the residue-name and atom-name columns of the line `write_gro` writes for an atom
+(names cut to their five columns) -/
+def groNameDots (a : Atom) : Nat :=
+  dotCount (renderField ⟨' ', .left, 5, 0, .s, true⟩ (.str (a.resname.getD []))) +
+  dotCount (renderField ⟨' ', .right, 5, 0, .s, true⟩ (.str (a.atomname.getD [])))
+
+/-- **detection of the format, in general.**  On the atom line `write_gro` produces for ANY atom —
+any coordinates, points in the names allowed — followed by anything (`V`: nothing, or the velocity
+fields): `read_gro` searches the two points that give it the column width from column 25 on, i.e.
+inside the coordinate block, and always finds 8 columns; but it decides on velocities by counting
+ALL points of the line, those in the names included. -/
+theorem gro_detect_gen (serial : Nat) (a : Atom) (V : List Char) :
+    (groDetect gro (groLine gro serial a ++ V)).hasVel = decide (groNameDots a + 3 + dotCount V = 6) ∧
+    (groDetect gro (groLine gro serial a ++ V)).slices =
+      if groNameDots a + 3 + dotCount V = 6 then groSlicesV 8 else groSlices 8 := by
   let sd : Spec := ⟨' ', .dflt, 5, 0, .d, true⟩
   let sf : Spec := ⟨' ', .dflt, 8, 3, .f, true⟩
   obtain ⟨T1, F1, h1, hT1, hF1, dT1, dF1⟩ := renderField_fix_shape sf a.x rfl rfl rfl (by decide) (by decide) (by decide)
   obtain ⟨T2, F2, h2, hT2, hF2, dT2, dF2⟩ := renderField_fix_shape sf a.y rfl rfl rfl (by decide) (by decide) (by decide)
   obtain ⟨T3, F3, h3, hT3, hF3, dT3, dF3⟩ := renderField_fix_shape sf a.z rfl rfl rfl (by decide) (by decide) (by decide)
-  let A : List Char := renderField sd (.int (a.resid.getD 1)) ++ renderField ⟨' ', .left, 5, 0, .s, true⟩ (.str (a.resname.getD []))
-    ++ renderField ⟨' ', .right, 5, 0, .s, true⟩ (.str (a.atomname.getD [])) ++ renderField sd (.int serial)
+  let R : List Char := renderField ⟨' ', .left, 5, 0, .s, true⟩ (.str (a.resname.getD []))
+  let N : List Char := renderField ⟨' ', .right, 5, 0, .s, true⟩ (.str (a.atomname.getD []))
+  let A : List Char := renderField sd (.int (a.resid.getD 1)) ++ R ++ N ++ renderField sd (.int serial)
   have hA : A.length = 20 := by
-    simp only [A, List.length_append]
+    simp only [A, R, N, List.length_append]
     rw [length_renderField _ _ rfl (by decide), length_renderField _ _ rfl (by decide),
       length_renderField _ _ rfl (by decide), length_renderField _ _ rfl (by decide)]
     rfl
-  have dA : A.all (· ≠ '.') = true := by
-    simp only [A, List.all_append, Bool.and_eq_true]
-    refine ⟨⟨⟨?_, ?_⟩, ?_⟩, ?_⟩
-    · exact renderField_all _ _ _ (by decide) (intRepr_all_ne '.' (by decide) (by decide) _)
-    · exact renderField_all _ _ _ (by decide) hrn
-    · exact renderField_all _ _ _ (by decide) han
-    · exact renderField_all _ _ _ (by decide) (intRepr_all_ne '.' (by decide) (by decide) _)
+  have dA : dotCount A = groNameDots a := by
+    have e1 := filter_eq_nil_of_all_ne _ '.' (renderField_all (· ≠ '.') sd (.int (a.resid.getD 1)) (by decide)
+      (intRepr_all_ne '.' (by decide) (by decide) _))
+    have e2 := filter_eq_nil_of_all_ne _ '.' (renderField_all (· ≠ '.') sd (.int serial) (by decide)
+      (intRepr_all_ne '.' (by decide) (by decide) _))
+    simp only [dotCount, groNameDots, A, R, N, List.filter_append, List.length_append, e1, e2, List.length_nil]
+    omega
   have hline : groLine gro serial a = A ++ (T1 ++ '.' :: F1) ++ (T2 ++ '.' :: F2) ++ (T3 ++ '.' :: F3) := by
     rw [← h1, ← h2, ← h3]
-    simp [groLine, gro, groFmt, render, segText, A, atomEnv, sd, sf]
+    simp [groLine, gro, groFmt, render, segText, A, R, N, atomEnv, sd, sf]
   simp only [sf] at hT1 hT2 hT3 hF1 hF2 hF3
-  -- first search: from column 25
-  have hd1 : (groLine gro serial a).drop 25 = (F1 ++ T2) ++ '.' :: (F2 ++ (T3 ++ '.' :: F3)) := by
-    have : groLine gro serial a = (A ++ T1 ++ ['.']) ++ ((F1 ++ T2) ++ '.' :: (F2 ++ (T3 ++ '.' :: F3))) := by
+  have hd1 : (groLine gro serial a ++ V).drop 25 = (F1 ++ T2) ++ '.' :: (F2 ++ (T3 ++ '.' :: F3) ++ V) := by
+    have : groLine gro serial a ++ V = (A ++ T1 ++ ['.']) ++ ((F1 ++ T2) ++ '.' :: (F2 ++ (T3 ++ '.' :: F3) ++ V)) := by
       rw [hline]; simp
     rw [this]
     exact drop_append_len _ _ 25 (by simp [hA, hT1])
-  have hf1 : findFrom (groLine gro serial a) '.' 25 = some 32 := by
+  have hf1 : findFrom (groLine gro serial a ++ V) '.' 25 = some 32 := by
     have := findFrom_spec _ '.' 25 _ _ hd1 (by
       intro x hx
       rcases List.mem_append.mp hx with h | h
       · simpa using List.all_eq_true.mp dF1 x h
       · simpa using List.all_eq_true.mp dT2 x h)
     rw [this]; simp [hF1, hT2]
-  have hd2 : (groLine gro serial a).drop 33 = (F2 ++ T3) ++ '.' :: F3 := by
-    have : groLine gro serial a = (A ++ T1 ++ ['.'] ++ F1 ++ T2 ++ ['.']) ++ ((F2 ++ T3) ++ '.' :: F3) := by
+  have hd2 : (groLine gro serial a ++ V).drop 33 = (F2 ++ T3) ++ '.' :: (F3 ++ V) := by
+    have : groLine gro serial a ++ V = (A ++ T1 ++ ['.'] ++ F1 ++ T2 ++ ['.']) ++ ((F2 ++ T3) ++ '.' :: (F3 ++ V)) := by
       rw [hline]; simp
     rw [this]
     exact drop_append_len _ _ 33 (by simp [hA, hT1, hF1, hT2])
-  have hf2 : findFrom (groLine gro serial a) '.' 33 = some 40 := by
+  have hf2 : findFrom (groLine gro serial a ++ V) '.' 33 = some 40 := by
     have := findFrom_spec _ '.' 33 _ _ hd2 (by
       intro x hx
       rcases List.mem_append.mp hx with h | h
       · simpa using List.all_eq_true.mp dF2 x h
       · simpa using List.all_eq_true.mp dT3 x h)
     rw [this]; simp [hF2, hT3]
-  have hcount : ((groLine gro serial a).filter (· = '.')).length = 3 := by
-    rw [hline]
-    simp only [List.filter_append, List.filter_cons, decide_true, if_true,
-      filter_eq_nil_of_all_ne _ _ dA, filter_eq_nil_of_all_ne _ _ dT1, filter_eq_nil_of_all_ne _ _ dF1,
+  have hcount : ((groLine gro serial a ++ V).filter (· = '.')).length = groNameDots a + 3 + dotCount V := by
+    rw [List.filter_append, List.length_append, hline, ← dA]
+    simp only [dotCount, List.filter_append, List.filter_cons, decide_true, if_true, List.length_append,
+      List.length_cons, filter_eq_nil_of_all_ne _ _ dT1, filter_eq_nil_of_all_ne _ _ dF1,
       filter_eq_nil_of_all_ne _ _ dT2, filter_eq_nil_of_all_ne _ _ dF2, filter_eq_nil_of_all_ne _ _ dT3,
-      filter_eq_nil_of_all_ne _ _ dF3]
-    rfl
+      filter_eq_nil_of_all_ne _ _ dF3, List.length_nil]
+    try omega
   have hdot : gro.dotFrom = 25 := rfl
   unfold groDetect
   rw [hdot, hf1, hcount]
   dsimp only
   have e : (((32 : Nat) : Int) + 1).toNat = 33 := by decide
   rw [e, hf2]
-  constructor <;> decide
+  by_cases hv : groNameDots a + 3 + dotCount V = 6
+  · simp only [hv, decide_true, if_true]
+    constructor
+    · trivial
+    · decide
+  · simp only [hv, decide_false, if_false]
+    constructor
+    · trivial
+    · decide
+
+/-- **detection of the coordinate width.**  On every atom line `write_gro` produces without
+velocities — whatever the coordinates, overflowing or not, points in the names or not —
+`read_gro` detects 8-column coordinates and no velocities, UNLESS the name columns of that line
+hold exactly three points (then the line has six, the reader's criterion for velocities). -/
+theorem gro_detect (serial : Nat) (a : Atom) (hd : groNameDots a ≠ 3) :
+    (groDetect gro (groLine gro serial a)).slices = groSlices 8 ∧
+    (groDetect gro (groLine gro serial a)).hasVel = false := by
+  have h := gro_detect_gen serial a []
+  simp only [List.append_nil] at h
+  have hne : ¬ (groNameDots a + 3 + dotCount [] = 6) := by
+    simp only [dotCount, List.filter_nil, List.length_nil]; omega
+  rw [h.1, h.2]
+  simp [hne]
+
+/-- … and with exactly three points in the name columns it takes the line for one with velocities -/
+theorem gro_detect_three_dots (serial : Nat) (a : Atom) (hd : groNameDots a = 3) :
+    (groDetect gro (groLine gro serial a)).hasVel = true := by
+  have h := gro_detect_gen serial a []
+  simp only [List.append_nil] at h
+  rw [h.1]
+  simp [hd, dotCount]
 
 /-! ## the atom line -/
 
@@ -134,20 +173,18 @@ def gAtomOf (serial : Nat) (a : Atom) : GAtom :=
     element := ((a.atomname.getD []).find? isAsciiLetter).getD ' ' }
 
 /-- one atom fits its GRO line: values within their columns, a letter in the atom name (the reader
-derives the element from it), residue name not excluded, no '.' in the names (the reader counts
-the points of the first line) -/
+derives the element from it), residue name not excluded.  Points in the names are fine. -/
 def groAtomFitsB (excl : List (List Char)) (serial : Nat) (a : Atom) : Bool :=
   (groSlices 8).all (fun sl => fitsFieldB (specAtGro sl) (atomEnv serial a sl.name)) &&
   ((a.atomname.getD []).find? isAsciiLetter).isSome &&
-  !(excl.contains (a.resname.getD [])) &&
-  (a.resname.getD []).all (· ≠ '.') && (a.atomname.getD []).all (· ≠ '.')
+  !(excl.contains (a.resname.getD []))
 
 theorem gro_line_parse (excl : List (List Char)) (serial : Nat) (a : Atom) (n idx : Nat)
     (h : groAtomFitsB excl serial a = true) :
     groParseLine excl false ⟨groSlices 8, false⟩ n idx (groLine gro serial a) = .ok (.keep (gAtomOf serial a)) := by
   unfold groAtomFitsB at h
   simp only [Bool.and_eq_true, Bool.not_eq_true', List.all_eq_true] at h
-  obtain ⟨⟨⟨⟨hfit, hlet⟩, hex⟩, _⟩, _⟩ := h
+  obtain ⟨⟨hfit, hlet⟩, hex⟩ := h
   have hr := gro_record_roundtrip serial a (fun sl hsl => fitsFieldB_iff _ _ (hfit sl hsl))
   unfold groParseLine
   simp only [hr]
@@ -182,9 +219,17 @@ theorem writeGro_eq (G : GroLayout) : ∀ (sys : List Mol) (start : Nat),
   | [], _ => rfl
   | m :: ms, start => by simp [groMolLines, groPairs, groAtomLines_eq, writeGro_eq G ms]
 
-/-- **the precondition of the GRO round trip**: at least one atom, every atom fits its line -/
+/-- the first atom line must not hold exactly three points in its name columns (`gro_detect`);
+later lines may -/
+def groFirstOk (ps : List (Nat × Atom)) : Bool :=
+  match ps with
+  | [] => false
+  | p :: _ => groNameDots p.2 != 3
+
+/-- **the precondition of the GRO round trip**: at least one atom, every atom fits its line, the
+FIRST line is not mistaken for one with velocities -/
 def FitsGro (excl : List (List Char)) (sys : List Mol) : Bool :=
-  !(groPairs 1 sys).isEmpty && (groPairs 1 sys).all fun p => groAtomFitsB excl p.1 p.2
+  groFirstOk (groPairs 1 sys) && (groPairs 1 sys).all fun p => groAtomFitsB excl p.1 p.2
 
 theorem groLoop_pairs (excl : List (List Char)) (n : Nat) (tail : List (List Char))
     (htail : tail = [] ∨ ∃ b t, tail = b :: t ∧ (readFields readFieldGro b (groSlices 8)).toOption = none) :
@@ -220,19 +265,17 @@ theorem gro_file_roundtrip (excl : List (List Char)) (sys : List Mol) (title : L
     readGro gro excl false (title :: natDigits (writeGro gro sys).length :: (writeGro gro sys ++ tail)) =
       .ok ((groPairs 1 sys).map fun p => gAtomOf p.1 p.2) := by
   unfold FitsGro at hfits
-  simp only [Bool.and_eq_true, Bool.not_eq_true', List.isEmpty_eq_false_iff, List.all_eq_true] at hfits
-  obtain ⟨hne, hall⟩ := hfits
+  simp only [Bool.and_eq_true, List.all_eq_true] at hfits
+  obtain ⟨hfirst, hall⟩ := hfits
   have hw : writeGro gro sys = (groPairs 1 sys).map fun p => groLine gro p.1 p.2 := writeGro_eq gro sys 1
   rw [hw]
   cases hps : groPairs 1 sys with
-  | nil => exact absurd hps hne
+  | nil => rw [hps] at hfirst; cases hfirst
   | cons p ps =>
-    rw [hps] at hall
+    rw [hps] at hall hfirst
     have hp := hall p (by simp)
-    have hp' := hp
-    unfold groAtomFitsB at hp'
-    simp only [Bool.and_eq_true] at hp'
-    obtain ⟨d1, d2⟩ := gro_detect p.1 p.2 hp'.1.2 hp'.2
+    have hd : groNameDots p.2 ≠ 3 := by simpa [groFirstOk] using hfirst
+    obtain ⟨d1, d2⟩ := gro_detect p.1 p.2 hd
     have hdet : groDetect gro (groLine gro p.1 p.2) = ⟨groSlices 8, false⟩ := by
       cases hd : groDetect gro (groLine gro p.1 p.2) with
       | mk sl hv => rw [hd] at d1 d2; simp only at d1 d2; rw [d1, d2]
